@@ -179,14 +179,16 @@ def steps_instance(seed):
     if rng.random() < 0.3:
         ref[0] = rng.choice(ms)                          # reference exactly on a matching scale
     target = [rng.choice(range(1, 7)), rng.choice([3, 4, 5, 6])]
-    ratios = [rng.uniform(0.6, 0.9), rng.uniform(1.1, 1.4), rng.uniform(1.5, 1.9)]
+    # matching ratios anywhere in [0.5, 2], a quarter of them exactly one
+    ratios = [1.0 if rng.random() < 0.25 else rng.uniform(0.5, 2.0) for _ in range(3)]
     masses = [tab[m] / r for m, r in zip(ms, ratios)]
     order = (rng.choice([1, 2, 3, 4]), 0)
     scheme = rng.choice([QuarkMassScheme.POLE, QuarkMassScheme.MSBAR])
     rec = {"ms": ms, "ref": ref, "target": target, "exc": "", "dec": [], "runs": [], "order": order[0], "scheme": scheme.name,
            "val": "na"}
     info = CouplingsInfo(alphas=0.118 if tab[ref[0]] > 50 else 0.25, alphaem=0.00781, ref=(tab[ref[0]] ** 0.5, ref[1]))
-    obj = Couplings(info, order=order, method=CouplingEvolutionMethod.EXPANDED, masses=masses, hqm_scheme=scheme, thresholds_ratios=ratios)
+    method = CouplingEvolutionMethod.EXACT if rng.random() < 0.3 else CouplingEvolutionMethod.EXPANDED
+    obj = Couplings(info, order=order, method=method, masses=masses, hqm_scheme=scheme, thresholds_ratios=ratios)
     # the atlas squares the reference scale again: recover the token table from the object itself
     f2t = {}
     for k, v in tab.items():
@@ -249,7 +251,7 @@ def steps_instance(seed):
     t2f[ref[0]] = float(obj.atlas.origin[0])
     for m, w in zip(ms, obj.atlas.walls[1:-1]):
         t2f[m] = float(w)
-    rec["_num"] = {"t2f": t2f, "masses": masses, "ratios": ratios, "alphas": info.alphas, "refscale": info.ref[0],
+    rec["_num"] = {"t2f": t2f, "masses": masses, "ratios": ratios, "alphas": info.alphas, "refscale": info.ref[0], "method": method.value,
                    "refnf": ref[1], "order": order, "scheme": scheme.name,
                    "val": [float(v) for v in val] if val is not None and rec["exc"] == "" else None}
     return rec
@@ -266,7 +268,7 @@ def steps_expected(num, steps):
 
     scheme = QuarkMassScheme[num["scheme"]]
     info = CouplingsInfo(alphas=num["alphas"], alphaem=0.00781, ref=(num["refscale"], num["refnf"]))
-    fresh = Couplings(info, order=tuple(num["order"]), method=CouplingEvolutionMethod.EXPANDED, masses=num["masses"],
+    fresh = Couplings(info, order=tuple(num["order"]), method=CouplingEvolutionMethod(num.get("method", "expanded")), masses=num["masses"],
                       hqm_scheme=scheme, thresholds_ratios=num["ratios"])
     a = fresh.a_ref.copy()
     for st in steps:
